@@ -138,6 +138,16 @@ def _cp2k_inv(ctx):
     ]
 
 
+def _leaves_polling(flag):
+    """After a stop the frame loop must also end the polling loop around it: `iterations_after_stop` is set past its exit value."""
+    def post(c):
+        g = c.st.ghost
+        ias = c.v("iterations_after_stop")
+        ias = ias if z3.is_expr(ias) else z3.IntVal(ias)
+        return z3.Implies(g.get("stopped", z3.BoolVal(False)), z3.And(ias >= 2, _bv(c.v(flag))))
+    return post
+
+
 def _cp2k_post(c):
     # whatever is left in the two queues still starts at the same file frame (so the next poll keeps pairing frame k with frame k),
     # unless the loop stopped the propagation (then nothing more is consumed)
@@ -152,6 +162,7 @@ reg(Contract(
     "CP2KEngine._propagate_from#consume", src=(CP2K_PY, "CP2KEngine._propagate_from"), slice=_loop_over("frame"),
     cases=[Case("sym", _cp2k_make)],
     ensures=[("queues_stay_aligned_for_the_next_poll", _cp2k_post), ("reported_success_is_the_outcome_of_the_last_frame", stop_post),
+             ("a_stop_also_ends_the_polling_loop", _leaves_polling("cp2k_was_terminated")),
              ("terminated_process_is_waited_for", lambda c: z3.BoolVal(not c.st.ghost.get("killed") or bool(c.st.ghost.get("waited"))))],
     canaries=[("never_consumes", lambda c: c.st.ghost.get("appended", z3.IntVal(0)) == 0)],
     loops={"for:frame": LoopSpec(lambda ctx: _cp2k_inv(ctx) + stop_inv(ctx), ghost_init=lambda c: dict(stop_ghost(c), written=c.st.ghost["written"]))},
